@@ -2,6 +2,7 @@ package main
 
 import (
 	"bufio"
+	"encoding/json"
 	"encoding/hex"
 	"fmt"
 	"hash/fnv"
@@ -185,6 +186,14 @@ func strs(m map[string]any, k string) []string {
 		}
 	}
 	return res
+}
+
+// reJSON converts a generic JSON value (or a struct) into a typed value.
+func reJSON(v any, out any) {
+	b, err := json.Marshal(v)
+	if err == nil {
+		json.Unmarshal(b, out)
+	}
 }
 
 // text inputs are stored hex-encoded in case data so that any byte survives JSON.
